@@ -16,13 +16,16 @@ RULE = ("explicit-state BFS over histories of <= 7 (quick) / <= 9 (thorough) ope
         "update_avps(origin_host=a.x|b.y) and update_avps(session_id=a.x) on each message, "
         "AcctMultiSessionIdAVP(a.x), SessionIdAVP(bytes), clock +1 s}; a state = canonical (clock - generator "
         "start, counter, set of issued ids relative to the start second, per message id/identity); each "
-        "transition replays the whole history on the real generator")
+        "transition replays the whole history on the real generator; plus stateless schedule exploration of 2 "
+        "(thorough 3) threads generating concurrently {SessionIdAVP(a.x), SessionIdAVP(b.y), typed ULR, bulk "
+        "origin update of an earlier message}, every schedule with <= 2 deviations (thorough 3 on two AVPs)")
 ASSUMPTIONS = [
     "datetime.utcnow is served by a virtual clock substituted in bromelia._internal_utils (module global)",
     "a history starts from the import-time state by re-running the module's own SessionHandler() call; the "
     "virtual clock stays inside the range in which seconds-since-1900 fit 32 bits (until 2036-02-07)",
     "the search is depth-bounded (the counter makes the state space infinite); the bound is reported",
-    "the generator is consulted from one thread (concurrent generation is not part of the statement's quantifier)",
+    "the histories are sequential; generation from two or three threads at once is explored separately by the "
+    "schedule explorer (every schedule with <= 2 deviations, line-level points on the generator's counter)",
 ]
 
 GRAMMAR = re.compile(rb"^([^;]+);([0-9]+);([0-9]+)(;.+)?$")
@@ -188,10 +191,109 @@ class SidModel:
                 tuple(rel(m.session_id_avp.data) for m in st.msgs))
 
 
+# ------------------------------------------------------------------------------------------------------------
+# concurrent generation (schedule explorer): "distinct from every other Session-Id generated in the process
+# lifetime" also covers ids generated by two threads at once
+# ------------------------------------------------------------------------------------------------------------
+
+def _concurrent_scenario():
+    from vk.vrt import explore, shims
+
+    class SidCreators(explore.Scenario):
+        name = "concurrent-session-ids"
+        horizon = 30.0
+        max_points = 5000
+        explore_from_start = True
+        shared = frozenset({"id", "init"})
+        auto_shared = True
+
+        def driver(self, rt):
+            import bromelia._internal_utils as IU
+            import bromelia.avps as A
+            from bromelia.lib.etsi_3gpp_s6a import ULR
+            IU.SessionHandler()          # the module's own initialisation, on the virtual clock
+            kinds = self.params["kinds"]
+            out = {}
+            rt.observations["out"] = out
+            pre = {}
+            for i, kind in enumerate(kinds):
+                if kind == "origin":     # a message created earlier, re-originated concurrently
+                    pre[i] = ULR(session_id="a.x", origin_host="a.x", origin_realm="realm", destination_realm="dr",
+                                 user_name="u", visited_plmn_id=b"\x01\x02\x03", rat_type=b"\x00\x00\x03\xec", ulr_flags=34)
+                    out[f"pre{i}"] = pre[i].session_id_avp.data.decode()
+
+            def creator(i):
+                kind = kinds[i]
+                if kind == "avp":
+                    out[i] = A.SessionIdAVP("a.x").data.decode()
+                elif kind == "avp-b":
+                    out[i] = A.SessionIdAVP("b.y").data.decode()
+                elif kind == "msg":
+                    m = ULR(session_id="a.x", origin_host="a.x", origin_realm="realm", destination_realm="dr",
+                            user_name="u", visited_plmn_id=b"\x01\x02\x03", rat_type=b"\x00\x00\x03\xec", ulr_flags=34)
+                    out[i] = m.session_id_avp.data.decode()
+                elif kind == "origin":
+                    pre[i].update_avps({"origin_host": "b.y"})
+                    out[i] = pre[i].session_id_avp.data.decode()
+            ts = [shims.Thread(target=creator, args=(i,), name=f"creator{i}") for i in range(len(kinds))]
+            for t in ts:
+                t.start()
+            for t in ts:
+                t.join()
+            rt.stop()
+
+        def oracle(self, rt):
+            out = rt.observations.get("out", {})
+            kinds = self.params["kinds"]
+            if rt.verdict != "done" or any(i not in out for i in range(len(kinds))):
+                return [(f"C16:concurrent:{rt.verdict}", f"creators did not finish: {rt.verdict}, {out}")]
+            errs = []
+            vals = list(out.values())
+            # ids are compared on (high, low): the identity is only a prefix, the pair must not repeat either
+            pairs = [tuple(v.split(";")[1:3]) for v in vals]
+            if len(set(vals)) != len(vals):
+                errs.append((f"C16:concurrent:duplicate:{'+'.join(kinds)}", f"Session-Ids generated concurrently coincide: {out}"))
+            for i, v in out.items():
+                if GRAMMAR.match(v.encode()) is None:
+                    errs.append((f"C16:concurrent:grammar", f"{v!r} is not identity;high;low[;opt]"))
+            return errs
+
+        def outcome(self, rt):
+            out = rt.observations.get("out", {})
+            return (rt.verdict, len(set(out.values())) == len(out))
+    return SidCreators
+
+
+CONCURRENT = [(["avp", "avp"], 2), (["avp", "msg"], 2), (["avp", "origin"], 2), (["avp", "avp-b"], 1)]
+CONCURRENT_THOROUGH = [(["avp", "avp", "avp"], 2), (["msg", "origin"], 2), (["origin", "origin"], 2), (["avp", "avp"], 3)]
+
+
+def _sched_shard(rep, arg):
+    from vk.vrt import explore
+    params, bound, k, n = arg
+    scn = _concurrent_scenario()(**params)
+    stats = {"executions": 0, "points": 0}
+    if k == 0:
+        base = explore.selfcheck_determinism(scn)
+        explore.run_one(scn, (), rep, stats)
+        rep.sample({"scenario": scn.name, "params": params, "deviation_bound": bound, "points": len(base.points)})
+    else:
+        base = explore.execute(scn)
+    firsts = explore.successors(base, ())
+    explore.explore_subtree(scn, firsts[k::n], bound, rep, stats)
+    rep.add(evaluations=stats["executions"], distinct=stats["executions"], concurrent_executions=stats["executions"])
+
+
 def run(report, tier, seed):
     depth = 7 if tier == "quick" else 9
     model = SidModel()
     res = hist.bfs_parallel(model, report, core.jobs(), max_depth=depth, max_states=3000000)
+    conc = CONCURRENT + (CONCURRENT_THOROUGH if tier == "thorough" else [])
+    shards = []
+    for kinds, bound in conc:
+        n = 4 if bound <= 2 else 16
+        shards += [(dict(kinds=kinds), bound, k, n) for k in range(n)]
+    core.run_shards(report, _sched_shard, shards, fresh_process=True)
     report.add(evaluations=res["transitions"], distinct=res["states"])
     report.count("max_depth", res["max_depth"])
     report.sample({"history": [["msg", "a.x"], ["origin", 0, "b.y"], ["msg", "a.x"], ["origin", 1, "b.y"]],
@@ -205,6 +307,17 @@ def run(report, tier, seed):
 
 
 def replay(w):
+    if "scenario" in w:
+        from vk.vrt import explore
+        scn = _concurrent_scenario()(**w["params"])
+        rt = explore.execute(scn, {int(i): int(a) for i, a in w["choices"]})
+        errs = scn.oracle(rt)
+        for p in rt.points:
+            print(f"  {p.thread:10s} {p.kind:12s} {p.label:28s} chosen={p.chosen} of {p.cands}")
+        print(rt.observations.get("out"))
+        for sig, text in errs:
+            print(sig, "|", text)
+        return bool(errs)
     history = [tuple(op) for op in w["history"]]
     model = SidModel()
     st = fresh()
